@@ -77,14 +77,14 @@ var excluded = map[string]struct {
 }{
 	"hostsfile.DefaultHostsPaths": {false, "no input; reads OS-specific state (registry / environment on Windows)"},
 
-	"timeutil.NewConstSchedule":            {false, "takes a time.Duration only; documents a panic for a non-positive interval"},
-	"timeutil.ConstSchedule.UntilNext":     {false, "takes a time.Time only; needs a constructed schedule"},
-	"timeutil.NewCronSchedule":             {false, "takes a cron.Schedule only; documents a panic for nil"},
-	"timeutil.CronSchedule.UntilNext":      {false, "takes a time.Time only; delegates to the third-party cron schedule"},
-	"timeutil.NewRandomizedSchedule":       {false, "takes schedules, a random source and durations; documents panics for bad arguments"},
+	"timeutil.NewConstSchedule":             {false, "takes a time.Duration only; documents a panic for a non-positive interval"},
+	"timeutil.ConstSchedule.UntilNext":      {false, "takes a time.Time only; needs a constructed schedule"},
+	"timeutil.NewCronSchedule":              {false, "takes a cron.Schedule only; documents a panic for nil"},
+	"timeutil.CronSchedule.UntilNext":       {false, "takes a time.Time only; delegates to the third-party cron schedule"},
+	"timeutil.NewRandomizedSchedule":        {false, "takes schedules, a random source and durations; documents panics for bad arguments"},
 	"timeutil.RandomizedSchedule.UntilNext": {false, "takes a time.Time only; result is random by design"},
-	"timeutil.SystemClock.After":           {false, "starts an OS timer"},
-	"timeutil.SystemClock.Now":             {false, "reads the wall clock"},
+	"timeutil.SystemClock.After":            {false, "starts an OS timer"},
+	"timeutil.SystemClock.Now":              {false, "reads the wall clock"},
 }
 
 // ok exercises the Error and Unwrap methods of a returned error (most of them
